@@ -332,7 +332,20 @@ class ParserText(ParserBase):
 
         return item
 
-    def _parse_string_until_separator(  # pylint: disable=too-many-arguments
+    @staticmethod
+    def _get_quoted_string_state(quoted, escaped, char):
+        # quoted-string of RFC 7230 3.2.6: DQUOTE *( qdtext / quoted-pair ) DQUOTE
+        # a quoted-pair is a backslash followed by any character
+        if not quoted:
+            return char == b'"', False
+        if escaped:
+            return True, False
+        if char == b'\\':
+            return True, True
+
+        return char != b'"', False
+
+    def _parse_string_until_separator(  # pylint: disable=too-many-arguments,too-many-locals
             self,
             name,
             item_offset,
@@ -340,12 +353,23 @@ class ParserText(ParserBase):
             item_class,
             fallback_class,
             may_end=False,
-            separator_spaces=''
+            separator_spaces='',
+            quote_aware=False
     ):
         item_end = None
         byte_separators = [six.ensure_binary(separator, self._encoding) for separator in separators]
 
+        quoted = False
+        escaped = False
         for separator_end in range(item_offset, len(self._parsable) + 1):
+            if quote_aware and separator_end > item_offset:
+                quoted, escaped = self._get_quoted_string_state(
+                    quoted, escaped, self._parsable[separator_end - 1:separator_end]
+                )
+            if quoted:
+                # a separator character inside a quoted-string is part of the string
+                continue
+
             for separator in byte_separators:
                 if self._parsable[item_offset:separator_end].endswith(separator):
                     item_end = separator_end - len(separator)
@@ -397,7 +421,8 @@ class ParserText(ParserBase):
             item_class=str,
             fallback_class=None,
             separator_spaces='',
-            skip_empty=False
+            skip_empty=False,
+            quote_aware=False
     ):  # pylint: disable=too-many-arguments
         value = []
         item_offset = self._parsed_length
@@ -408,7 +433,7 @@ class ParserText(ParserBase):
 
         while True:
             parsed_value, parsed_length = self._parse_string_until_separator(
-                name, item_offset, separator, str, None, True, separator_spaces
+                name, item_offset, separator, str, None, True, separator_spaces, quote_aware
             )
             if parsed_length:
                 if isinstance(item_class, type) and issubclass(item_class, ParsableBase):
@@ -455,6 +480,7 @@ class ParserText(ParserBase):
             separator_spaces='',
             skip_empty=False,
             max_item_num=None,
+            quote_aware=False,
     ):  # pylint: disable=too-many-arguments
         self._parse_string_array(
             name,
@@ -463,7 +489,8 @@ class ParserText(ParserBase):
             item_class=item_class,
             fallback_class=fallback_class,
             separator_spaces=separator_spaces,
-            skip_empty=skip_empty
+            skip_empty=skip_empty,
+            quote_aware=quote_aware
         )
 
     def parse_date_time(self, name):
